@@ -64,6 +64,12 @@ CLASSES = [
      "script": [(0, "go depth 1"), ("wait", "bestmove"), (0.05, "go depth 1")],
      "cmds": ["CmdGo", "CmdGo"], "sched": [I] + [T(0, True)] * 4 + [I, T(0), I] + full(1, True),
      "need_points": ["THREAD_EXIT"]},
+    # the old thread takes SECONDS to wind down (a full stdout pipe, a starved process): the go still has to be answered, however long
+    # it waits (seeded change r7C10: a 5 s hand-over timeout after which the go is dropped with a stderr message)
+    {"name": "go-while-thread-winds-down-for-seconds", "env": {"THREAD_EXIT": 6500},
+     "script": [(0, "go depth 1"), ("wait", "bestmove"), (0.05, "go depth 1")],
+     "cmds": ["CmdGo", "CmdGo"], "sched": [I] + [T(0, True)] * 4 + [I, T(0), I] + full(1, True),
+     "need_points": ["THREAD_EXIT"]},
     {"name": "go-while-searching-is-refused-loudly", "env": {},
      "script": [(0, "go infinite"), (0.2, "go depth 1"), (0.2, "stop")],
      "cmds": ["CmdGo", "CmdGo", "CmdStop"], "sched": [I, T(0), T(0), I, I] + full(0), "need_points": []},
